@@ -11,34 +11,7 @@ import z3
 
 PROPERTY = "C16"
 
-# spec helper functions (evaluated by the same translator as the code)
-DEFS_IDX = {"lo": (["t"], "t[0][0]"), "hi": (["t"], "t[0][1]")}
-DEFS_ARR = {"lo": (["t"], "slice_lo(t[0])"), "hi": (["t"], "slice_hi(t[0])")}
-
-ENSURES = {
-    "nonempty": "len(result) >= 1",
-    "count": "len(result) == (n_batches if n_tasks >= n_batches else 1)",
-    "first": "lo(result[0]) == start_idx",
-    "last": "hi(result[len(result) - 1]) == start_idx + n_tasks",
-    "chain": "all(hi(result[k]) == lo(result[k + 1]) for k in range(len(result) - 1))",
-    "each-nonempty": "all(lo(result[k]) < hi(result[k]) for k in range(len(result)))",
-    "own-start": "all(result[k][1] == lo(result[k]) for k in range(len(result)))",
-    "args-passed": "all(result[k][2:] == args for k in range(len(result)))",
-}
-ENSURES_ARR = dict(ENSURES)
-ENSURES_ARR["arr-slice"] = "all(slice_base(result[k][0]) is arr for k in range(len(result)))"
-
-INV = {
-    "len": "len(tasks) == _it",
-    "i1-closed-form": "i1 == start_idx + _it * base_batch_size + min(_it, rmdr)",
-    "tasks-closed-form": "all(lo(tasks[k]) == start_idx + k * base_batch_size + min(k, rmdr) and "
-                         "hi(tasks[k]) == start_idx + (k + 1) * base_batch_size + min(k + 1, rmdr) for k in range(_it))",
-    "own-start": "all(tasks[k][1] == lo(tasks[k]) for k in range(_it))",
-    "args-passed": "all(tasks[k][2:] == args for k in range(_it))",
-}
-INV_ARR = dict(INV)
-INV_ARR["arr-slice"] = "all(slice_base(tasks[k][0]) is arr for k in range(_it))"
-
+from .c16spec import DEFS_ARR, DEFS_IDX, ENSURES, ENSURES_ARR, INV, INV_ARR  # noqa: E402,F401
 
 def _cover_witness(ex, path, name):
     return None
@@ -65,3 +38,16 @@ batch_tasks_arr = Contract(
 
 CONTRACTS = [batch_tasks_idx, batch_tasks_arr]
 CALLEES = {}
+
+# ---- run_worker (selection of n_samples / n_batches, child generators, results in task order) --------------------------------------
+from . import filemodel as _fm      # noqa: E402
+from . import workers as _W         # noqa: E402
+
+CONTRACTS += _W.run_worker_contracts
+CALLEES = dict(_W.RW_CALLEES)
+LIB = _fm.install_repo_models(dict(_W.LIB))
+LEMMAS = ["Partition.lean"]
+ASSUMPTIONS = ["schwimmbad pool.map(f, tasks) == [f(t) for t in tasks] in task order (S9)",
+               "numpy SeedSequence.spawn(n) returns n fresh children keyed by the parent's spawn counter",
+               "pytables open_file(mode='r') does not modify the file; Table.shape[0] is the number of rows"]
+NOT_DECIDED = []
